@@ -116,6 +116,8 @@ def main(argv=None):
     if a.replay:
         return do_replay(a.replay)
 
+    import logging
+    logging.disable(logging.CRITICAL)
     from . import api
     api.use('sym')
     import fontTools
